@@ -39,7 +39,7 @@ pub fn child(args: &[String]) -> ! {
         .unwrap_or(0);
     let mut ops = 0u64;
     let mut complaints = 0u64;
-    let mut extra = String::new();
+    let extra;
     match which {
         "c07" => {
             let mut crashes = 0u64;
